@@ -43,6 +43,8 @@ logging.disable(logging.CRITICAL)
 from simple_ddl_parser import DDLParser
 import simple_ddl_parser, os, importlib
 import ply.yacc as yacc
+_shipped = {}
+exec(open(os.path.join(os.path.dirname(simple_ddl_parser.__file__), "parsetab.py")).read(), _shipped)      # before any parser is built
 p = DDLParser("create table a (b int);")          # regenerates a stale cache as a side effect
 pinfo = yacc.ParserReflect({k: getattr(p, k) for k in dir(p)}, log=yacc.NullLogger())
 pinfo.get_all()
@@ -61,6 +63,8 @@ if tab._lr_signature == sig:
     cp = [(x.str, x.name, x.len, x.func) for x in lr.lr_productions]
     out["productions_equal"] = fp == cp
     out["n_states"] = len(fresh.action); out["n_productions"] = len(fp)
+    if _shipped.get("_lr_signature") == sig:
+        out["shipped_productions"] = [(a, b, c, d) for a, b, c, d, e, f in _shipped["_lr_productions"]] == [(x.str, x.name, x.len, x.func) for x in fresh.productions]
 json.dump(out, sys.stdout)
 '''
 
@@ -153,6 +157,17 @@ def run(tier, seed):
             ns = {}
             exec(shipped, ns)
             art["shipped_signature_matches_grammar"] = ns.get("_lr_signature") == art["grammar_signature"]
+            if art["shipped_signature_matches_grammar"]:
+                # the SHIPPED file is the cache state `valid`: it must be usable as it is - loaded without complaint, not rewritten, and its
+                # productions (rule, length, handler) those of a fresh generation (compared before any parser was built from it)
+                after = open(os.path.join(scratch, "simple_ddl_parser", "parsetab.py")).read()
+                art["shipped_file_left_untouched_by_a_build"] = after == shipped
+                art["shipped_loaded_without_complaint"] = "problem loading the table file" not in p.stderr
+                if not art["shipped_file_left_untouched_by_a_build"] or not art["shipped_loaded_without_complaint"]:
+                    V.mismatch({"problem": "the shipped table file carries the grammar's signature but is not used as it is (PLY could not load it / regenerated and rewrote it)",
+                                "stderr": p.stderr[-400:]})
+                if art.get("shipped_productions") is not None and art["shipped_productions"] is False:
+                    V.mismatch({"problem": "the shipped table file carries the grammar's signature but its productions (rule, length, handler) differ from a fresh generation"})
             for k in ("action_equal", "goto_equal", "productions_equal"):
                 if art.get(k) is False:
                     V.mismatch({"problem": f"cached table file with matching signature differs from a fresh generation: {k}"})
